@@ -109,9 +109,14 @@ def run_c14(h):
             out.append(ST.Mismatch(['ctor'], 'constructor %s panics: %s' % (name, bad[0][2]), h.best_model(bad[0][1].pc), {'ctor': name}))
         lexers[name] = [(s2, v) for k, s2, v in res if k == 'return']
     names = field_names(h)
-    ref_name = 'new_from_iter_with_state'
-    if len(lexers[ref_name]) != 1:
-        raise Inconclusive('reference constructor has %d paths' % len(lexers[ref_name]))
+    # the constructor the others are compared with: one that does not branch on its input
+    ref_name = None
+    for cand in ('new_from_iter_with_state', 'new_with_state', 'new_from_iter', 'new'):
+        if len(lexers[cand]) == 1:
+            ref_name = cand
+            break
+    if ref_name is None:
+        raise Inconclusive('every constructor branches on its input (%s paths)' % ', '.join('%s: %d' % (k, len(v)) for k, v in lexers.items()))
     ref_inner = lexers[ref_name][0][1].f[0]
     # boundary state
     ent = h.entries()[0]
